@@ -25,7 +25,7 @@ SPEC = dict(
             "predicate on on-manifold cases whose enabled constraints are all workless, and mode testcc on the exact trajectory of "
             "the baseline's failing test.  NOT modelled: the rank decision of the multiplier solve (LAPACK QTZ with conditioning "
             "tolerance m*eps^(3/4)): pinv is a parameter with the generalized-inverse contract; cases with an ambiguous "
-            "singular-value gap of G (1e-12 < s_i/s_1 < 1e-6) are tagged illcond and only Newton's law is checked on them; M^-1 is the "
+            "singular-value gap of G (1e-12 < s_i/s_1 <= 1e-3) are tagged illcond and only Newton's law is checked on them; M^-1 is the "
             "exported dense mass matrix (operator agreement is C01/C02); the loopFD records use M, G, f, b exported from the "
             "implementation, so they add to the predicates only the check that udot/lambda are THE solution of that system",
     assumptions=["minv is a linear right inverse of M (C01/C02); pinv satisfies A A+ A = A on range(A)",
